@@ -158,9 +158,16 @@ func readUdt(source []byte, inj injector, fieldNames []string, fieldCodecs []Cod
 	total := reader.Len()
 	for i, fieldCodec := range fieldCodecs {
 		name := fieldNames[i]
-		if encodedField, err := primitive.ReadBytes(reader); err != nil {
-			return errCannotReadUdtField(i, name, err)
-		} else if decodedField, err := inj.zeroElem(i, name); err != nil {
+		var encodedField []byte
+		// A UDT value is allowed to have less values than the type has fields (e.g. it was written before a
+		// field was added to the type): the missing trailing fields are NULL.
+		if reader.Len() > 0 {
+			var err error
+			if encodedField, err = primitive.ReadBytes(reader); err != nil {
+				return errCannotReadUdtField(i, name, err)
+			}
+		}
+		if decodedField, err := inj.zeroElem(i, name); err != nil {
 			return errCannotCreateUdtField(i, name, err)
 		} else if fieldWasNull, err := fieldCodec.Decode(encodedField, decodedField, version); err != nil {
 			return errCannotDecodeUdtField(i, name, err)
